@@ -41,3 +41,21 @@ func c19Settle() {
 		panic("verif: goroutines of the step did not finish")
 	}
 }
+
+// c19Run runs the step and turns a step that never returns (deadlock) into a panic of the harness goroutine;
+// a panic of the step itself is passed on.
+func c19Run(step func()) {
+	done := make(chan interface{}, 1)
+	go func() {
+		defer func() { done <- recover() }()
+		step()
+	}()
+	select {
+	case r := <-done:
+		if r != nil {
+			panic(r)
+		}
+	case <-time.After(5 * time.Second):
+		panic("verif: the step did not return (deadlock)")
+	}
+}
